@@ -2,4 +2,4 @@ import BalmProofs.Props.C03
 #print axioms Balm.concrete_leaf_iff_minimal
 #print axioms Balm.Partition.leaf_iff_minimal
 #print axioms Balm.Skip.skip_completion
-#print axioms Balm.Props.C04.expandBfs_inv
+#print axioms Balm.Props.C04.plain_history_inv
